@@ -91,7 +91,7 @@ pub fn complete_path(word: &str, for_dir: bool) -> Vec<Completion> {
         (_path.clone(), _path_sep.clone())
     };
 
-    let (_, _dir_orig, _f) = split_pathname(&path, "");
+    let (_dir_orig, _f) = split_dir_file(&path);
     let dir_orig = if _dir_orig.is_empty() {
         String::new()
     } else {
@@ -103,7 +103,7 @@ pub fn complete_path(word: &str, for_dir: bool) -> Vec<Completion> {
     }
     utils::expand_env_string(&mut path_extended);
 
-    let (_, _dir_lookup, file_name) = split_pathname(&path_extended, "");
+    let (_dir_lookup, file_name) = split_dir_file(&path_extended);
     let dir_lookup = if _dir_lookup.is_empty() {
         ".".to_string()
     } else {
@@ -158,6 +158,16 @@ pub fn complete_path(word: &str, for_dir: bool) -> Vec<Completion> {
     }
     res.sort_by(|a, b| a.completion.cmp(&b.completion));
     res
+}
+
+// Split a path text into its directory part (up to the last `/`) and the file name prefix.
+// The text is a token that `parse_line` has already unquoted, so a `|` in it is a
+// literal character of the name, never a pipe.
+fn split_dir_file(path: &str) -> (String, String) {
+    match path.rfind('/') {
+        Some(pos) => (path[..=pos].to_string(), path[pos + 1..].to_string()),
+        None => (String::new(), path.to_string()),
+    }
 }
 
 // Split optional directory and prefix. (see its test cases for more details)
